@@ -9,6 +9,7 @@ import (
 	"encoding/json"
 	"errors"
 	"fmt"
+	"helm.sh/helm/v4/pkg/kube"
 	"io"
 	"math/rand"
 	"os"
@@ -757,6 +758,7 @@ func runManifest(x *exec, rng *rand.Rand) {
 		}
 		un := action.NewUninstall(cfg)
 		un.KeepHistory, un.DisableHooks, un.Timeout = keep, nohooks, time.Second
+		un.WaitStrategy = kube.StatusWatcherStrategy // as the CLI sets one; an empty strategy is refused by GetWaiter
 		_, err := un.Run(name)
 		return err
 	})
